@@ -6,7 +6,9 @@ import (
 	"go/ast"
 	"go/printer"
 	"go/token"
+	"os"
 	"path/filepath"
+	"regexp"
 	"sort"
 	"strconv"
 	"strings"
@@ -271,7 +273,7 @@ func genRules(repo string) (string, error) {
 		return "", fmt.Errorf("buildField / buildProperty / buildScalarType not found")
 	}
 	var sb strings.Builder
-	sb.WriteString("From Coq Require Import List NArith ZArith.\nFrom J5V.model Require Import RulesDecl.\nImport ListNotations.\n")
+	sb.WriteString("From Coq Require Import String List NArith ZArith.\nFrom J5V.model Require Import RulesDecl.\nImport ListNotations.\n")
 	sb.WriteString("Inductive cond := CondNotExclusive | CondExclusive | CondFlagPresent | CondFlagAbsent | CondOther.\n")
 	sb.WriteString("Inductive rfield := RLt | RLte | RGt | RGte | ROtherField.\n")
 	sb.WriteString("(* fields.go buildField, integer rules: (format, is the maximum, condition on the exclusive flag,\n   rule assigned when it holds, rule assigned otherwise) *)\n")
@@ -546,6 +548,110 @@ func genRules(repo string) (string, error) {
 	sb.WriteString("].\n")
 	fmt.Fprintf(&sb, "Definition reader_wellknown_id62_format : list N := %s.\n", bytesTerm(wkID))
 
+	vt, err := vocabularyTerm(repo)
+	if err != nil {
+		return "", err
+	}
+	sb.WriteString(vt)
 	fmt.Fprintf(&sb, "(* the key:id62 arm of the writer assigns stringRules.Pattern = id62.PatternString; the reader's\n   wellKnownStringPatterns maps id62.PatternString to the id62 format *)\nDefinition writer_id62_published : bool := %v.\nDefinition reader_id62_published : bool := %v.\n", idArm, idRead)
+	return sb.String(), nil
+}
+
+// ---- the vocabulary of schema.proto: every message of a field type, its Rules and Ext,
+// ObjectProperty, KeyFormat, EntityKey, with its field names in declaration order. The Coq side
+// (proofs/RulesGenProofs.v schema_vocabulary_covered) lists for every field where it lives in
+// the declaration language of the models, or that it is outside: a field added to schema.proto
+// breaks that lemma until it is given a place.
+var vocabFieldRe = regexp.MustCompile(`^\s*(?:optional\s+|repeated\s+)?(?:map<[^>]+>|[\w.]+)\s+(\w+)\s*=\s*\d+`)
+var vocabOpenRe = regexp.MustCompile(`^\s*(message|enum|oneof)\s+(\w+)\s*\{`)
+
+func schemaVocabulary(src string) map[string][]string {
+	out := map[string][]string{}
+	type frame struct{ kind, name string }
+	var stack []frame
+	path := func() string {
+		var p []string
+		for _, f := range stack {
+			if f.kind == "message" {
+				p = append(p, f.name)
+			}
+		}
+		return strings.Join(p, ".")
+	}
+	inEnum := func() bool {
+		for _, f := range stack {
+			if f.kind == "enum" {
+				return true
+			}
+		}
+		return false
+	}
+	depthOther := 0 // braces of option blocks
+	for _, line := range strings.Split(src, "\n") {
+		if i := strings.Index(line, "//"); i >= 0 {
+			line = line[:i]
+		}
+		if depthOther > 0 {
+			depthOther += strings.Count(line, "{") - strings.Count(line, "}")
+			continue
+		}
+		if m := vocabOpenRe.FindStringSubmatch(line); m != nil {
+			stack = append(stack, frame{m[1], m[2]})
+			if m[1] == "message" {
+				if _, ok := out[path()]; !ok {
+					out[path()] = nil
+				}
+			}
+			if strings.Contains(line, "}") { // message Ext {}
+				stack = stack[:len(stack)-1]
+			}
+			continue
+		}
+		if m := vocabFieldRe.FindStringSubmatch(line); m != nil && len(stack) > 0 && !inEnum() {
+			out[path()] = append(out[path()], m[1])
+			if d := strings.Count(line, "{") - strings.Count(line, "}"); d > 0 {
+				depthOther = d
+			}
+			continue
+		}
+		o, c := strings.Count(line, "{"), strings.Count(line, "}")
+		if o > c {
+			depthOther += o - c
+			continue
+		}
+		for i := 0; i < c-o && len(stack) > 0; i++ {
+			stack = stack[:len(stack)-1]
+		}
+	}
+	return out
+}
+
+func vocabularyTerm(repo string) (string, error) {
+	b, err := os.ReadFile(filepath.Join(repo, "proto/j5/j5/schema/v1/schema.proto"))
+	if err != nil {
+		return "", err
+	}
+	v := schemaVocabulary(string(b))
+	var ks []string
+	for k := range v {
+		if (strings.HasSuffix(k, "Field") && k != "Field" && !strings.Contains(k, ".")) || strings.Contains(k, "Field.") || k == "ObjectProperty" || k == "KeyFormat" || k == "KeyFormat.Custom" || k == "EntityKey" {
+			ks = append(ks, k)
+		}
+	}
+	sort.Strings(ks)
+	var sb strings.Builder
+	sb.WriteString("(* proto/j5/j5/schema/v1/schema.proto: the field-type messages, their Rules and Ext, ObjectProperty,\n   KeyFormat, EntityKey: (message, field names in declaration order) *)\nDefinition schema_vocabulary : list (String.string * list String.string) := [\n")
+	for i, k := range ks {
+		var fs []string
+		for _, f := range v[k] {
+			fs = append(fs, fmt.Sprintf("%q%%string", f))
+		}
+		sep := ";"
+		if i == len(ks)-1 {
+			sep = ""
+		}
+		fmt.Fprintf(&sb, "  (%q%%string, [%s])%s\n", k, strings.Join(fs, "; "), sep)
+	}
+	sb.WriteString("].\n")
 	return sb.String(), nil
 }
